@@ -193,15 +193,18 @@ def fresh_slide(prs, row, rnd):
 _GRID = {}
 
 
-def grid(row):
-    if row.id not in _GRID:
-        _GRID[row.id] = row.values(None, 0)
-    return _GRID[row.id]
+def grid(row, extra=0):
+    """The row's fixed value grid (extra > 0: topped up with seeded values, for the thorough sequences)."""
+    from vlib import env
+
+    if (row.id, extra) not in _GRID:
+        _GRID[(row.id, extra)] = row.values(env.rng("C09", "seqvalues", row.id) if extra else None, extra)
+    return _GRID[(row.id, extra)]
 
 
-def ok_values(row):
+def ok_values(row, extra=0):
     t = T()
-    return [(v, c) for v, c in grid(row) if t.expectation(c) == "ok" and (v is not None or row.none is not t.NOTDOC)]
+    return [(v, c) for v, c in grid(row, extra) if t.expectation(c) == "ok" and (v is not None or row.none is not t.NOTDOC)]
 
 
 def pick_prime(row, obj):
@@ -235,7 +238,7 @@ def probe(row, obj, v, vcls, idx, snap, acc, mode, extra=None):
         acc.count("inherited_initial_readings_compared")
         if not same(row.cmp, want, got):
             acc.violation("none-semantics:" + row.id, "%s without a directly-applied value reads %s, the layout placeholder has %s" % (row.id, short(got), short(want)), dict(wit, mode="initial-inherited"))
-    if mode == "fresh" and idx < 4:
+    if mode == "fresh" and idx < 8:
         got = read(row, obj)
         acc.count("initial_readings_taken")
         if isinstance(got, Raises) and not row.initial_may_raise:
@@ -333,22 +336,24 @@ def run_rows(unit, tier, acc):
     from vlib import env
 
     t = T()
-    n = 0 if tier == "quick" else 400
+    nvals = 25 if tier == "quick" else 400
     pending = []
     for i, row in enumerate(t.ROWS):
         if i % unit["of"] != unit["shard"]:
             continue
-        vals = row.values(env.rng("C09", "values", row.id), n)
+        vals = row.values(env.rng("C09", "values", row.id), nvals)
         if len(acc.samples) < 2:
             acc.samples.append({"row": row.id, "fixture": row.fixture, "path": row.path, "values": len(vals), "first": [[short(v), c] for v, c in vals[:5]]})
-        for idx, (v, vcls) in enumerate(vals):
-            if row.solo:
-                run_batch([(row, v, vcls, idx)], acc, tier)
-                continue
-            pending.append((row, v, vcls, idx))
-            if len(pending) >= BATCH:
-                run_batch(pending, acc, tier)
-                pending = []
+        for n, (v, vcls) in enumerate(vals):
+            # a value that may be rejected is tried twice: on the fresh object (even idx: after a valid value was set) and as is
+            for idx in (2 * n, 2 * n + 1) if t.expectation(vcls) != "ok" else (2 * n,):
+                if row.solo:
+                    run_batch([(row, v, vcls, idx)], acc, tier)
+                    continue
+                pending.append((row, v, vcls, idx))
+                if len(pending) >= BATCH:
+                    run_batch(pending, acc, tier)
+                    pending = []
     if pending:
         run_batch(pending, acc, tier)
 
@@ -387,7 +392,7 @@ def run_sequences(gkey, seq_ids, tier, acc):
 
     t = T()
     rows = groups()[gkey]
-    steps, rounds = (4, 3) if tier == "quick" else (5, 4)
+    steps, rounds = (4, 3) if tier == "quick" else (6, 5)
     solo = any(r.solo for r in rows)
     per_deck = 1 if solo else 10
     for k in range(0, len(seq_ids), per_deck):
@@ -406,8 +411,7 @@ def run_sequences(gkey, seq_ids, tier, acc):
                 wit = {"mode": "sequence", "group": gkey, "seq": q["n"], "tier": tier, "seed": env.seed()}
                 for _ in range(steps):
                     r = q["rnd"].choice(rows)
-                    cands = ok_values(r)
-                    v, vcls = q["rnd"].choice(cands)
+                    v, vcls = q["rnd"].choice(ok_values(r, 0 if tier == "quick" else 80))
                     obj = q["objs"][r.id]
                     acc.count("sequence_assignments")
                     try:
@@ -517,7 +521,7 @@ def run_corpus(unit, tier, acc):
     for i, deck in enumerate(decks):
         if i % unit["of"] == unit["shard"]:
             acc.count("corpus_decks")
-            for rd in range(2 if tier == "quick" else 12):
+            for rd in range(2 if tier == "quick" else 40):
                 corpus_round(deck, rd, tier, acc)
 
 
